@@ -69,6 +69,24 @@ pub fn cases(tier: &str, _seed: u64) -> Vec<Case> {
             v.push(new_case(&s, "exhaustive"));
         }
     }
+    // one non-ASCII character at a time among a few ASCII ones: every character of the Latin-1 supplement
+    // (thorough: up to U+024F, Greek, the Euro sign, an emoji) in every position of every short string. The bytes
+    // of some of them look like letters or digits when read one by one (c3 bc, c2 b5, c2 aa ...)
+    let upper = if tier == "thorough" { 0x24F } else { 0xFF };
+    let mut specials: Vec<String> = (0x80u32..=upper).filter_map(char::from_u32).map(|c| c.to_string()).collect();
+    for c in ['λ', 'я', '€', '\u{1F600}', '\u{FF21}', '\u{0660}'] { specials.push(c.to_string()); }
+    for x in &specials {
+        let alpha2 = ["a", "1", "-", "_", ".", x.as_str()];
+        for len in 1..=4usize {
+            let total = alpha2.len().pow(len as u32);
+            for mut code in 0..total {
+                let mut st = String::new();
+                let mut has = false;
+                for _ in 0..len { let k = code % alpha2.len(); has |= k == 5; st.push_str(alpha2[k]); code /= alpha2.len(); }
+                if has { v.push(new_case(&st, "non-ascii")); }
+            }
+        }
+    }
     // label lengths 0..70, with and without neighbours
     for n in 0..=70usize {
         let l = "x".repeat(n);
